@@ -76,6 +76,15 @@ def faults(tier):
     gz = gzip.compress(text, compresslevel=6, mtime=0)
     for off in range(0, len(gz), step):
         F.append(dict(kind="trunc-gz", off=off, files={"in.fq.gz": gz[:off]}))
+    # a larger gzip file: the decompressor gets past format detection, the error surfaces while chunks are being read
+    import random
+
+    rnd = random.Random(12)
+    big = [(f"b{i}", "".join(rnd.choice("ACGT") for _ in range(50)) + (ADAPTER if i % 3 == 0 else ""), None) for i in range(200)]
+    big = [(n, s_, "".join(rnd.choice("ABCDEFGHI") for _ in range(len(s_)))) for n, s_, _ in big]
+    bigz = gzip.compress(clih.fastq_text(big).encode(), compresslevel=6, mtime=0)
+    for off in (len(bigz) // 3, len(bigz) // 2, (len(bigz) * 9) // 10, len(bigz) - 9, len(bigz) - 3, len(bigz)):
+        F.append(dict(kind="trunc-gz-large", off=off, files={"in.fq.gz": bigz[:off]}, buf=3000))
     # single-record corruptions at first / middle / last record
     for pos in (0, len(recs) // 2, len(recs) - 1):
         def damaged(fn):
@@ -201,7 +210,7 @@ def setup_fault(f, wd):
 
 
 def argv_for(f, paths, outd, cores):
-    a = ["-j", str(cores), "--buffer-size", str(BUF), "-a", f"ad={ADAPTER}"]
+    a = ["-j", str(cores), "--buffer-size", str(f.get("buf", BUF)), "-a", f"ad={ADAPTER}"]
     if f.get("paired") == "two":
         a += ["-A", "bd=TTTTCCCC", "-o", os.path.join(outd, "o1.fq"), "-p", os.path.join(outd, "o2.fq")]
     elif f.get("paired") == "interleaved":
@@ -338,6 +347,11 @@ def plan(tier):
             stride = 3 if f["kind"].startswith("trunc") else 1
             if f["off"] % stride == 0 or not f["kind"].startswith("trunc"):
                 T.append((tier, f["id"], ("virtual", 2, None, 1)))
+        for f in F:
+            if f["kind"] == "trunc-gz-large":
+                T.append((tier, f["id"], ("virtual", 2, None, 1)))
+                T.append((tier, f["id"], ("virtual", 3, None, 0)))
+                T.append((tier, f["id"], "free"))
         for f in F:
             if not f["kind"].startswith("trunc") or f["off"] % 16 == 5:
                 T.append((tier, f["id"], ("virtual", 2, 1, 1)))
